@@ -139,6 +139,20 @@ def network_loader(ctx, rng, quick):
                                 not all(elem_close(x.element, y.element) for x, y in zip(net3.branches, net.branches)):
                             ctx.violation('C17:file-load-differs', f'load_network_from_json of the file holding this description gives {net3.branches} '
                                           f'(the path had held another description before)', rep)
+                        # the same file with identifiers and node names outside ASCII, written as such (ensure_ascii=False, UTF-8 — what an
+                        # editor saves); only where UTF-8 is the platform's text encoding, which is what open() without encoding= reads
+                        import locale
+                        if locale.getpreferredencoding(False).lower().replace('-', '') == 'utf8':
+                            ren = {'a': 'Knoten ä'}          # ('0' is the loader's reference label and stays)
+                            uni = [dict(d, id=d['id'] + 'ü€', N1=ren.get(d['N1'], d['N1']), N2=ren.get(d['N2'], d['N2'])) for d in before]
+                            with open(path, 'w', encoding='utf-8') as f:
+                                _json.dump(uni, f, ensure_ascii=False)
+                            net4 = loaders.load_network_from_json(path)
+                            ctx.count('loaded-from-file:non-ascii-names')
+                            if [(x.node1, x.node2, x.id) for x in net4.branches] != [(ren.get(x.node1, x.node1), ren.get(x.node2, x.node2), x.id + 'ü€')
+                                                                                     for x in net.branches]:
+                                ctx.violation('C17:file-load-differs', f'identifiers / node names outside ASCII are not the ones in the file: '
+                                              f'{[(x.node1, x.node2, x.id) for x in net4.branches]}', dict(rep, renamed=uni))
                     except Exception as e:  # noqa: BLE001
                         ctx.violation(f'C17:file-load-raises-{type(e).__name__}', str(e)[:120], rep)
                     finally:
@@ -251,6 +265,18 @@ def documents(ctx, rng, quick):
             u = dump_load.undictify_all_complex_values(snapshot(d))
             if not (close_c(u['a'], z, 0) and close_c(u['b'], z) and close_c(u['c'], z, 1e-11) and close_c(u['n'][0]['v'], z)):
                 ctx.violation('C17:notations-disagree', f'undictify: {u} for {z}', {'z': [z.real, z.imag]})
+            # a notation is a SET of keys (JSON / YAML objects are unordered) and its numbers may be written without a decimal point
+            rev = {'a': {'imag': z.imag, 'real': z.real}, 'b': {'phase': ph, 'abs': r}, 'c': {'phase_deg': math.degrees(ph), 'abs': r},
+                   'n': [{'v': {'phase_deg': math.degrees(ph), 'abs': r}}], 'i': {'real': 3, 'imag': -4}, 'j': {'imag': 2, 'real': 0},
+                   'k': {'abs': 2, 'phase_deg': 90}, 'l': {'phase': 0, 'abs': 5}}
+            ctx.count('notations:keys-in-the-other-order / integer parts')
+            u = dump_load.undictify_all_complex_values(snapshot(rev))
+            ok = all(isinstance(u[k], complex) for k in 'abcijkl') and isinstance(u['n'][0]['v'], complex) and \
+                close_c(u['a'], z, 0) and close_c(u['b'], z) and close_c(u['c'], z, 1e-11) and close_c(u['n'][0]['v'], z, 1e-11) and \
+                u['i'] == 3 - 4j and u['j'] == 2j and close_c(u['k'], 2j, 1e-11) and u['l'] == 5
+            if not ok:
+                ctx.violation('C17:notations-disagree', f'undictify with the keys in the other order / integer parts: {u} for {z}',
+                              {'z': [z.real, z.imag], 'document': repr(rev)})
         except Exception as e:  # noqa: BLE001
             ctx.violation(f'C17:undictify-raises-{type(e).__name__}', str(e)[:100], {'document': repr(d)})
 
